@@ -129,4 +129,14 @@ def build(ctx):
             body += '  VASSERT(id == exp, "visiting an enum yields the tag of the matching validValue, or unknown_enum_value_tag for every other underlying value");\n'
             hs.append(P.Harness("%s_enumvisit_%s_cxx%s" % (sch.ns, t.name, std), hgen.harness([ue], body), [ue], unwind=3, cap=ctx.q(60, 300),
                                 desc="enum %s (%s): sbepp::visit yields value tag / unknown tag for all underlying values" % (t.name, t.prim), bounds={"value": "all %d-bit values" % (8 * size), "std": "c++" + std}))
+    # "visiting a set yields every choice with its bit": the generated set visitors (visit / on_set_choice and the older visit_set) of every encoding width, all underlying values
+    import c15
+    schs, incs = hgen.gen_headers(ctx, "vs_sets.xml")
+    for std in hgen.stds(ctx):
+        ug = ctx.lower("c15g", c15.gen_cpp(schs), std=std, mode="unchecked", incs=[incs])
+        for t in schs.types.values():
+            if t.kind != "set": continue
+            hs.append(P.Harness("setvisit_%s_cxx%s" % (t.name, std), c15.gen_harness(ug, t), [ug], unwind=2,
+                                desc="sbeppc-generated set %s (%s, choices %s): visit / visit_set report every choice once, in schema order, with exactly its bit (also named/by-tag access)" % (t.name, t.prim, t.choices),
+                                bounds={"choices": [c[1] for c in t.choices], "value": "all values", "std": "c++" + std}))
     return hs
